@@ -82,13 +82,25 @@ pub fn cmp_v(c: &Comparison) -> V {
     V::T(vec![t, g, m, r])
 }
 
+/// the name with the case of its ASCII letters swapped
+fn swap_case(s: &str) -> String {
+    s.chars().map(|c| if c.is_ascii_lowercase() { c.to_ascii_uppercase() } else if c.is_ascii_uppercase() { c.to_ascii_lowercase() } else { c }).collect()
+}
+
 fn edit(rng: &mut Rng, f: &mut Facts, flags: bool, tags: &mut Vec<&'static str>) {
     let k = rng.below(15);
     match k {
         0 => {
             // rename a term
             let i = rng.below(f.terms.len() as u64) as usize;
-            f.terms[i].name = format!("{} x", f.terms[i].name);
+            let swapped = swap_case(&f.terms[i].name);
+            if rng.chance(1, 2) && swapped != f.terms[i].name {
+                // a rename that differs in letter case only
+                f.terms[i].name = swapped;
+                tags.push("rename_case_only");
+            } else {
+                f.terms[i].name = format!("{} x", f.terms[i].name);
+            }
             tags.push("rename");
         }
         1 => {
@@ -192,7 +204,13 @@ fn edit(rng: &mut Rng, f: &mut Facts, flags: bool, tags: &mut Vec<&'static str>)
             };
             if !recs.is_empty() {
                 let i = rng.below(recs.len() as u64) as usize;
-                recs[i].name = format!("{}é", recs[i].name);
+                let swapped = swap_case(&recs[i].name);
+                if rng.chance(1, 2) && swapped != recs[i].name {
+                    recs[i].name = swapped;
+                    tags.push("rename_case_only");
+                } else {
+                    recs[i].name = format!("{}é", recs[i].name);
+                }
                 tags.push("record_renamed");
             }
         }
